@@ -86,6 +86,27 @@ Theorem C17_ctl_equiv_target : forall rx all c st rs ph rq,
 Proof. exact ctl_target_equiv. Qed.
 Print Assumptions C17_ctl_equiv_target.
 
+(* the whole rest of the transaction (remaining rules of the phase, then the later phases over the whole
+   rule list; cf_run = cf_rest rules rules 1 [2]) *)
+Theorem C17_ctl_equiv_remove_rest : forall rx all c st rs ph phs rq,
+  is_rm_ctl c = true ->
+  obs (cf_rest rx all rs ph phs rq (cf_ctl_step all c st))
+  = obs (cf_rest rx (allP all (rm_set all c)) (filter (keepP (rm_set all c)) rs) ph phs rq st).
+Proof. exact ctl_remove_equiv_rest. Qed.
+Print Assumptions C17_ctl_equiv_remove_rest.
+
+Theorem C17_ctl_equiv_target_rest : forall rx all c st rs ph phs rq,
+  is_tgt_ctl c = true ->
+  obs (cf_rest rx all rs ph phs rq (cf_ctl_step all c st))
+  = obs (cf_rest rx (allT all (tgt_ids all c) (tgt_var c) (tgt_exc c))
+                 (map (rwT (tgt_ids all c) (tgt_var c) (tgt_exc c)) rs) ph phs rq st).
+Proof. exact ctl_target_equiv_rest. Qed.
+Print Assumptions C17_ctl_equiv_target_rest.
+
+Theorem C17_run_is_rest : forall rx rules rq, cf_run rx rules rq = cf_rest rx rules rules 1 [2] rq st_init.
+Proof. exact cf_run_rest. Qed.
+Print Assumptions C17_run_is_rest.
+
 (* the same, against the REWRITTEN SOURCE compiled by the parser *)
 Theorem C17_ctl_equiv_remove_source : forall rx dflt src all c st srs ph rq,
   cf_compile dflt src = Some all -> is_rm_ctl c = true -> rm_set all c 0 = false ->
